@@ -80,6 +80,18 @@ def handleFmap (s : FState) (ws : List String) : Option (FState × String) :=
       match r with
       | .ok => fin f (if found then "ok 1" else "ok 0")
       | r => fin f (showRes r)
+  | ["entry_peek", kind, a, key] => do
+      -- `Entry::key`, then `OccupiedEntry::key` / `get` / `get_mut` (each `…(self.key).unwrap()`) or `VacantEntry::key`
+      let k ← mapKind? kind
+      let h ← node a
+      let key ← key.toNat?
+      if !s.forest.isElement h then some (s, "panic") else
+      match s.forest.mapEntry k h key with
+      | .occupied key' =>
+        (match s.forest.occGetMut k h key', s.forest.mapGet k h key' with
+         | .ok, some v => some (s, s!"occ {key} {key'} {showPayload v} {showPayload v}")
+         | _, _ => some (s, "panic"))
+      | .vacant key' => some (s, s!"vac {key} {key'}")
   | ["entry_or_default", a, key] => do
       let (f, r) := s.forest.entryOrDefault (← node a) (← key.toNat?)
       fin f (showRes r)
